@@ -428,7 +428,7 @@ func genChainFacts(repo string) string {
 	g.fn("recovery_handlePanic", "`recovery.handlePanic`", []string{".Abort()", ".handler", "return"}, cfWhole(&recovery, "", "handlePanic"))
 	g.fn("recovery_defaultHandler", "`recovery.defaultHandler`", []string{".JSON(", ".Abort()", "Status"}, cfWhole(&recovery, "", "defaultHandler"))
 	g.fn("timeout_handler", "the closure `timeout.New` returns",
-		[]string{"shouldSkip", ".Next()", ":= *", "context.WithTimeout", ".Request =", ".Response", "timeoutWriter", "make(chan", "go {", "defer", "recover()", "close(", "<-", "select", "errors.Is", ".timeout()", ".handler(", "panic(", "return"},
+		[]string{"shouldSkip", ".Next()", ":= *", "context.WithTimeout", ".Request =", ".Response", "timeoutWriter", "make(chan", "go {", "defer", "recover()", "close(", "<-", "select", "errors.Is", ".timeout()", ".handler(", ".logger", "panic(", "return"},
 		cfClosure(&timeout, "New"))
 	for _, m := range []string{"Write", "WriteHeader", "Flush", "timeout", "start", "Header"} {
 		g.fn("tw_"+m, "`(*timeoutWriter)."+m+"`",
